@@ -183,16 +183,18 @@ func (r *zstdWriteStreamReader) Read(p []byte) (n int, err error) {
 		return n, nil
 	}
 
-	if r.finished {
-		return 0, io.EOF
-	}
-
 	req, err := r.stream.Recv()
 	if err != nil {
 		if errors.Is(err, io.EOF) {
+			if r.finished {
+				return 0, io.EOF
+			}
 			return 0, status.Error(codes.InvalidArgument, "Client closed stream without finishing write")
 		}
 		return 0, err
+	}
+	if r.finished {
+		return 0, status.Error(codes.InvalidArgument, "Client closed stream twice")
 	}
 
 	if req.WriteOffset != r.nextOffset {
